@@ -31,7 +31,13 @@ type c08Query struct {
 func genC08Query(t *kernel.Tape, id uint16) (q c08Query) {
 	sizes := []int{0, 100, 400, 500, 511, 512, 513, 600, 1200, 1231, 1232, 1233, 1500, 4000, 4095, 4096, 4097, 9000, 30000, 65000, 65400, 65500, 65535, 66000}
 	size := kernel.Pick(t, sizes, "resp-size")
-	if t.Chance(1, 3, "size-jitter") {
+	edge := false
+	if t.Chance(1, 6, "size-at-the-edge") {
+		// Every size in the last hundred octets below the stream limit:
+		// options added after truncation must still fit.
+		size = 65440 + t.Choose(101, "edge")
+		edge = true
+	} else if t.Chance(1, 3, "size-jitter") {
 		size += t.Choose(40, "jitter") - 20
 		if size < 0 {
 			size = 0
@@ -52,11 +58,11 @@ func genC08Query(t *kernel.Tape, id uint16) (q c08Query) {
 		q.udpSize = kernel.Pick(t, []uint16{1232, 0, 511, 512, 513, 4096, 65535, 300}, "udp-size")
 		m.SetEdns0(q.udpSize, t.Chance(1, 3, "do"))
 		opt := m.IsEdns0()
-		if t.Chance(1, 3, "padding") {
+		if t.Chance(1, 3, "padding") || (edge && t.Chance(1, 2, "padding-at-edge")) {
 			q.padding = true
 			opt.Option = append(opt.Option, &dns.EDNS0_PADDING{Padding: make([]byte, t.Choose(30, "pad"))})
 		}
-		if t.Chance(1, 4, "keepalive") {
+		if t.Chance(1, 4, "keepalive") || (edge && t.Chance(1, 2, "keepalive-at-edge")) {
 			q.keepalive = true
 			opt.Option = append(opt.Option, &dns.EDNS0_TCP_KEEPALIVE{Code: dns.EDNS0TCPKEEPALIVE})
 		}
@@ -113,7 +119,16 @@ func checkC08(tk *task, tr string, encrypted, stream bool, limit int, q c08Query
 		return
 	}
 
-	_, an, ns, ex, _, _ := answerFor(q.msg.Question[0])
+	wantRcode, an, ns, ex, _, _ := answerFor(q.msg.Question[0])
+	if resp.Rcode != wantRcode {
+		// A response that does not fit is truncated, not replaced by an
+		// error.
+		tk.Failf("C08/error-instead-of-answer", tr+": response carries another rcode than the handler's",
+			"%s %s (udp size %d, padding=%v, keep-alive=%v): rcode %d, handler wrote %d",
+			tr, q.msg.Question[0].Name, q.udpSize, q.padding, q.keepalive, resp.Rcode, wantRcode)
+
+		return
+	}
 	wrote := len(an) + len(ns) + len(ex)
 	got := len(resp.Answer) + len(resp.Ns)
 	for _, rr := range resp.Extra {
@@ -329,25 +344,41 @@ func runC08(s *kernel.Sim, _ string) {
 					}
 				}
 				fr, end := streamExchange(tk, n, addrDC, nil, [][]byte{withPrefix(dc.seal(q.raw))}, false)
-				if len(fr) != 1 {
+				var asked int
+				_, _ = fmt.Sscanf(q.msg.Question[0].Name, "s%d", &asked)
+				if len(fr) != 1 && asked >= 65300 {
+					// The DNSCrypt layer leaves 64 octets for its envelope,
+					// which needs up to 111: the framed length wraps around.
+					tk.Failf("C08/dnscrypt-tcp-envelope-overflow",
+						"dnscrypt-tcp: a response of nearly 65535 octets plus the DNSCrypt envelope overflows the two-octet length prefix",
+						"%s: %d frames, end %s", q.msg.Question[0].Name, len(fr), end)
+					if tk.Failed() {
+						return
+					}
+					fr = nil
+				} else if len(fr) != 1 {
 					tk.Failf("C08/no-answer", "dnscrypt-tcp: no single answer", "%s: %d frames, end %s", q.msg.Question[0].Name, len(fr), end)
 
 					return
 				}
-				if len(fr[0]) > 65535 {
+				if len(fr) == 0 {
+					// Listed finding met: nothing to judge for this exchange.
+				} else if len(fr[0]) > 65535 {
 					tk.Failf("C08/too-large", "dnscrypt-tcp: response larger than the transport's limit", "%d", len(fr[0]))
 
 					return
 				}
-				plain, derr := dc.open(fr[0])
-				if derr != nil {
-					tk.Failf("C08/undecodable", "dnscrypt-tcp: reply does not decrypt", "%v", derr)
+				if len(fr) == 1 {
+					plain, derr := dc.open(fr[0])
+					if derr != nil {
+						tk.Failf("C08/undecodable", "dnscrypt-tcp: reply does not decrypt", "%v", derr)
 
-					return
-				}
-				checkC08(tk, "dnscrypt-tcp", false, true, 65535, q, plain)
-				if tk.Failed() {
-					return
+						return
+					}
+					checkC08(tk, "dnscrypt-tcp", false, true, 65535, q, plain)
+					if tk.Failed() {
+						return
+					}
 				}
 			}
 
